@@ -70,13 +70,28 @@ def check(name, case, rec):
         sv = gmat.drive_history(name, um, sv0, F, case["F"]["hist"], batch, e["lam"], Q=Qc)
     noarg = e["nstate"] == 0 and e["backend"] != "hand"
 
+    # hand-coded laws take out=: every second case evaluates them the way SolidBody does, handing the arrays of the
+    # previous evaluation back as output buffers
+    import inspect
+
+    reuse = e["backend"] == "hand" and case["F"]["fseed"] % 2 == 1 and "out" in inspect.signature(um.gradient).parameters
+    bufs = {}
+    if reuse:
+        rec.label("reused-out-buffers")
+
     def P_of(F_, s=None):
         s = sv if s is None else s
-        return np.array(um.gradient([np.ascontiguousarray(F_), None if noarg else s.copy()])[0], dtype=float).copy()
+        kw = {}
+        if reuse:
+            kw["out"] = bufs.setdefault("P", np.full((3, 3) + batch, 0.7))
+        return np.array(um.gradient([np.ascontiguousarray(F_), None if noarg else s.copy()], **kw)[0], dtype=float).copy()
 
     def A_of(F_, s=None):
         s = sv if s is None else s
-        return np.array(um.hessian([np.ascontiguousarray(F_), None if noarg else s.copy()])[0], dtype=float).copy()
+        kw = {}
+        if reuse:
+            kw["out"] = bufs.setdefault("A", np.full((3, 3, 3, 3) + batch, 0.7))
+        return np.array(um.hessian([np.ascontiguousarray(F_), None if noarg else s.copy()], **kw)[0], dtype=float).copy()
 
     R, Q = rot(case["R"]), rot(case["Q"])
     sym_off = float(np.abs(F - np.swapaxes(F, 0, 1)).max())
